@@ -26,6 +26,8 @@ and parse_one toks =
   | _ -> failwith "bad token"
 let () =
   let st = ref None in
+  let rt = ref None in
+  let fs = ref [] in
   (try
     while true do
       let line = input_line stdin in
@@ -35,11 +37,15 @@ let () =
        | "CONF" :: rest ->
            let (t, _) = parse_one rest in
            st := Conf.load_tree t;
+           rt := Routing.parse_routing t;
+           fs := [];
            Buffer.add_string b (match !st with Some _ -> "LOADED" | None -> "LOADFAIL")
        | op :: rest ->
            let (args, _) = parse_one rest in
            let args = (match args with Tree.N l -> l | _ -> failwith "args") in
-           print_tree b (Dispatch.run !st (chars_of_hex op) args)
+           let (res, fs') = DispatchFs.run_fs !st !rt !fs (chars_of_hex op) args in
+           fs := fs';
+           print_tree b res
        | [] -> Buffer.add_string b "EMPTY");
       print_string (Buffer.contents b); print_newline ()
     done
